@@ -154,6 +154,8 @@ def run_cfg(ctx, p, cfg):
     from rules import serde_defaults
     serde_defaults.rule_missing_keys(ctx, p, cfg, "K9a", "config::raw::Root")       # a root without a level is at debug, without appenders has none
     serde_defaults.rule_missing_keys(ctx, p, cfg, "K9b", "config::raw::Logger")     # a logger is additive unless it says otherwise
+    from rules import c15
+    c15.rule_reloader_flow(ctx, p, cfg, "K10")     # "the refresh rate is honoured": every changed document is applied, whatever its modification time (C15.A5 re-evaluated)
     with ctx.rule("K1", "unknown keys rejected", cfg) as r:
         n = 0
         for adt in DENY:
